@@ -376,3 +376,66 @@ harness! { fn c10_callbacks_clone_drop_3() unwind(18) { callbacks_clone_drop::<3
 harness! { fn c10_callbacks_clone_drop_2() unwind(18) { callbacks_clone_drop::<2>() } }
 harness! { fn c10_capacity_overflow_create() unwind(3) { capacity_overflow_create() } }
 harness! { fn c10_capacity_overflow_with_capacity() unwind(3) { capacity_overflow_with_capacity() } }
+
+/// Overflow inside destroy on a world of Drop-counting tokens (C04 + C10): at the panic point the
+/// storage is Inv and whole; natively the panic is caught, the same oracle runs on what the
+/// unwinding left behind, nothing was dropped by the failed destroy, and dropping the world
+/// afterwards drops every token exactly once (a half-removed entity shows as a double drop).
+pub fn overflow_in_destroy_tokens<const N: usize>(kind: u8) {
+    use wt::*;
+    reset();
+    let m: Model<N> = Model::any_inv();
+    let mut i = 0;
+    while i < N {
+        sym::assume(m.val[i] == i as u8);
+        i += 1;
+    }
+    let k = sym::any_usize();
+    sym::assume(k < m.len);
+    let p = m.ent_slot[k] as usize;
+    sym::assume(m.slot_ver[p] == u32::MAX || m.version == u32::MAX);
+    let mut world = load::<TokM, N>(&m);
+    let (key, ver) = m.handle_raw(TokM::ID, k);
+    let any = EntityAny::from_raw((key, ver)).ok().unwrap();
+    let typed: Entity<ArchTok> = any.try_into().ok().unwrap();
+    run_guarded::<TokM, N>(&mut world, &m, k, |w| match kind {
+        0 => {
+            let _ = w.destroy(any);
+        }
+        _ => {
+            if let Some(c) = w.arch_tok.destroy(typed) {
+                std::mem::forget(c);
+            }
+        }
+    });
+    unsafe {
+        cover!(HITS == 0, "UNREACHABLE: destroy completed although a counter was at u32::MAX");
+        // the failed destroy dropped nothing
+        let mut i = 0;
+        while i < 16 {
+            assert!(DROPS[i] == 0, "C04/C10: a destroy that panicked dropped a component");
+            i += 1;
+        }
+    }
+    // the world is still usable and owns every token exactly once
+    drop(world);
+    unsafe {
+        let mut i = 0;
+        while i < 8 {
+            assert!(DROPS[i] == if i < m.len { 1 } else { 0 }, "C04/C10: after a caught overflow panic the world does not own every component exactly once");
+            i += 1;
+        }
+        assert!(ZDROPS as usize == m.len, "C04/C10: zero-sized components not owned exactly once after a caught overflow panic");
+    }
+}
+
+harness! {
+    #[cfg_attr(kani, kani::stub(gecs::version::SlotVersion::next, stub_slot_next))]
+    #[cfg_attr(kani, kani::stub(gecs::version::ArchetypeVersion::next, stub_arch_next))]
+    fn c10_overflow_destroy_tokens_any_3() unwind(18) { overflow_in_destroy_tokens::<3>(0) }
+}
+harness! {
+    #[cfg_attr(kani, kani::stub(gecs::version::SlotVersion::next, stub_slot_next))]
+    #[cfg_attr(kani, kani::stub(gecs::version::ArchetypeVersion::next, stub_arch_next))]
+    fn c10_overflow_destroy_tokens_typed_2() unwind(18) { overflow_in_destroy_tokens::<2>(1) }
+}
